@@ -77,6 +77,10 @@ KeyDirsOf(k) == IF FrontKind = "plain" THEN <<Root, Root>>
 OtherShard(b) == IF b = ShardDir(0) THEN ShardDir(1) ELSE ShardDir(0)
 
 Op(p) == loc[p].op
+SetLike(api) == api \in {"set", "set_tf"}
+TempFileApi(api) == api \in {"set_tf", "put_tf"}
+StagedOutside(api) == FrontKind = "stack" /\ api \in {"set", "put", "set_tf", "put_tf"}
+SrcDir == "SRC"
 TmpNameL(p, l) == "t" \o ToString(p) \o "x" \o ToString(l.opi)
 
 \* ---- contents -------------------------------------------------------------
@@ -91,7 +95,8 @@ PreDir(e) == KeyDirsOf(e.key)[1]
 FirstDir == IF FrontKind # "sharded" THEN Root ELSE ShardDir(0)
 InitFS ==
     IF ~DirsExist THEN EmptyFS
-    ELSE [ents |-> ("." :> ((Root :> "DIR") @@ (IF FrontKind = "stack" THEN (RORoot :> "DIR") ELSE <<>>))) @@
+    ELSE [ents |-> ("." :> ((Root :> "DIR") @@ (IF FrontKind = "stack" THEN (RORoot :> "DIR") @@ (SrcDir :> "DIR") ELSE <<>>))) @@
+                   (IF FrontKind = "stack" THEN (SrcDir :> <<>>) ELSE <<>>) @@
                    (IF FrontKind = "stack" THEN (RORoot :> [k \in {e.key : e \in PreRO} |-> "ro" \o k]) ELSE <<>>) @@
                    (IF FrontKind # "sharded" THEN <<>> ELSE (Root :> [n \in {DirName(i) : i \in 0..NShards - 1} |-> "DIR"])) @@
                    [b \in BaseDirs |-> ((".kismet_temp" :> "DIR") @@
@@ -147,7 +152,7 @@ SysLabels == {"g1", "g2", "g3", "t1", "t2", "t3", "t4",
               "m1", "m2", "m3", "m4", "m5", "m7", "m8a", "m8w", "m8b", "m8c", "m9",
               "c1", "c2", "c3", "c4", "c4u", "c5", "c6",
               "p1", "p1w", "p2", "p3", "p4", "p5", "p6", "q1", "q2", "q3", "q4", "p7",
-              "d1", "d2", "d3",
+              "d1", "d2", "d3", "ms1", "ms2", "ms3", "ft1", "ft2", "ft3", "ft4", "ft5", "d1t",
               "es", "ec", "ef1", "ef2", "ecp1", "ecp2", "ew", "efc", "efs", "ecl", "eop", "eg1", "eg2", "eg3", "ecl2", "esk", "eun", "ecl3", "ecl4"}
 
 RO == <<"RDONLY", "CLOEXEC">>
@@ -197,7 +202,7 @@ NextCallL(p, l, lbl) ==
       [] lbl = "p3" -> [call |-> "close", via |-> "fd", ino |-> l.fd, ph |-> "lib"]
       [] lbl = "p4" -> [call |-> "stat", path |-> PIn(l.td, l.tmp), nofollow |-> TRUE, ph |-> "lib"]
       [] lbl = "p5" -> [call |-> "chmod", path |-> PIn(l.td, l.tmp), cmode |-> ChmodMode(l.stmode), ph |-> "lib"]
-      [] lbl = "p6" -> [call |-> IF l.op.api = "set" THEN "rename" ELSE "link", path |-> PIn(l.td, l.tmp), path2 |-> PIn(l.b, k), ph |-> "lib"]
+      [] lbl = "p6" -> [call |-> IF SetLike(l.op.api) THEN "rename" ELSE "link", path |-> PIn(l.td, l.tmp), path2 |-> PIn(l.b, k), ph |-> "lib"]
       [] lbl = "q1" -> [call |-> "open", path |-> PIn(l.b, k), flags |-> RO, ph |-> "lib"]
       [] lbl = "q2" -> [call |-> "open", path |-> PIn(l.b, k), flags |-> WO, ph |-> "lib"]
       [] lbl = "q3" -> [call |-> "utimens", via |-> "fd", ino |-> l.fd, atk |-> "set", at |-> Tm(l.now), mtk |-> "omit", ph |-> "lib"]
@@ -222,6 +227,18 @@ NextCallL(p, l, lbl) ==
       [] lbl = "eun" -> [call |-> "unlink", path |-> PIn(l.td, l.tmp), ph |-> "lib"]
       [] lbl = "ecl3" -> [call |-> "close", via |-> "fd", ino |-> l.tino, ph |-> "lib"]      \* error path: the temp file's descriptor
       [] lbl = "ecl4" -> [call |-> "close", via |-> "fd", ino |-> l.hit, ph |-> "lib"]       \* error path: the read-only hit being promoted
+      \* stacked set / put: maybe_sync_path (auto_sync) opens the staged file, flushes it, closes it
+      [] lbl = "ms1" -> [call |-> "open", path |-> PIn(l.td, l.tmp), flags |-> RO, ph |-> "lib"]
+      [] lbl = "ms2" -> [call |-> "fsync", via |-> "fd", ino |-> l.tino, ph |-> "lib"]
+      [] lbl = "ms3" -> [call |-> "close", via |-> "fd", ino |-> l.tino, ph |-> "lib"]
+      \* set_temp_file / put_temp_file: finalize_tempfile makes the file read-only, flushes it, closes it (the close is checked);
+      \* its path guard removes the name when the call ends (ft4); on an early error the still open descriptor is closed (ft5)
+      [] lbl = "ft1" -> [call |-> "chmod", via |-> "fd", ino |-> l.tino, cmode |-> 292, ph |-> "lib"]
+      [] lbl = "ft2" -> [call |-> "fsync", via |-> "fd", ino |-> l.tino, ph |-> "lib"]
+      [] lbl = "ft3" -> [call |-> "close", via |-> "fd", ino |-> l.tino, ph |-> "lib"]
+      [] lbl = "ft4" -> [call |-> "unlink", path |-> PIn(l.td, l.tmp), ph |-> "lib"]
+      [] lbl = "ft5" -> [call |-> "close", via |-> "fd", ino |-> l.tino, ph |-> "lib"]
+      [] lbl = "d1t" -> [call |-> "stat", path |-> PIn(l.td, l.tmp), nofollow |-> TRUE, ph |-> "app"]
       [] lbl = "d1" -> [call |-> "stat", path |-> PIn(l.td, l.tmp), nofollow |-> TRUE, ph |-> "app"]
       [] lbl = "d2" -> [call |-> "unlink", path |-> PIn(l.td, l.tmp), ph |-> "app"]
       [] lbl = "d3" -> [call |-> "close", via |-> "fd", ino |-> l.tino, ph |-> "app"]
@@ -273,6 +290,7 @@ Done(l, ok, res, hit) == [pc |-> "ret", loc |-> l, ret |-> <<[ok |-> ok, res |->
 
 Min2(a, b) == IF a < b THEN a ELSE b
 Fail(l) == Go([l EXCEPT !.cont = "err"], IF l.op.api = "ensure" THEN (IF l.tmp # "" THEN "eun" ELSE IF l.wcont = "esk" THEN "ecl4" ELSE "fail")
+                                         ELSE IF TempFileApi(l.op.api) /\ l.tmp # "" THEN "ft4"
                                          ELSE IF l.tfd THEN "d1" ELSE "fail")
 \* create_dir_all(chain[1]) then continue at `ok` (or fail)
 MkdirAll(l, chain, okl) == Go([l EXCEPT !.mkq = chain, !.mki = 1, !.mkok = okl], "k1")
@@ -292,6 +310,7 @@ EstAfter(l) == IF l.maintained THEN [l.est EXCEPT ![l.h1] = Min2(l.rem, 254) + 1
                ELSE [l.est EXCEPT ![l.h1] = IF @ < 255 THEN @ + 1 ELSE @]
 FinishWrite(l) ==
     IF l.op.api = "ensure" THEN Go(l, l.wcont)          \* promote: rewind the hit; miss: look the key up again
+    ELSE IF TempFileApi(l.op.api) THEN Go([l EXCEPT !.cont = "ok"], "ft4")
     ELSE IF FrontKind \in {"plain", "stack"} THEN Go([l EXCEPT !.cont = "ok"], "d1")
     ELSE LET l2 == [l EXCEPT !.est = EstAfter(l)] IN
          IF l.maintained THEN Go(l2, "y1")      \* maintain a random other shard
@@ -349,7 +368,9 @@ AfterL(p, l, lbl, c) ==
                        ELSE Done(l, FALSE, c.res, "")
       [] lbl = "a4" -> IF ~ok THEN Go([l EXCEPT !.cont = "err"], "d2")
                        ELSE IF l.wr + 1 < l.op.chunks THEN Go([l EXCEPT !.wr = @ + 1], "a4")
-                       ELSE Go([l EXCEPT !.wr = @ + 1, !.att = 1, !.maintained = FALSE], IF FrontKind # "sharded" THEN "s1" ELSE "x1")
+                       ELSE Go([l EXCEPT !.wr = @ + 1, !.att = 1, !.maintained = FALSE],
+                               IF StagedOutside(api) THEN (IF TempFileApi(api) THEN "ft1" ELSE "ms1")
+                               ELSE IF FrontKind # "sharded" THEN "s1" ELSE "x1")
       \* sharded: write to h2 iff the key already lives there (only NotFound means absent), else to h1
       [] lbl = "x1" -> IF ok THEN Go([l EXCEPT !.b = l.h2], "s1")
                        ELSE IF c.res = "ENOENT" THEN Go([l EXCEPT !.b = l.h1], "s1")
@@ -407,7 +428,7 @@ AfterL(p, l, lbl, c) ==
       [] lbl = "p4" -> IF ok THEN Go([l EXCEPT !.stmode = c.st.mode], "p5") ELSE PublishFailed(l)
       [] lbl = "p5" -> IF ok THEN Go(l, "p6") ELSE PublishFailed(l)
       [] lbl = "p6" -> IF ok THEN Go(l, "p7")
-                       ELSE IF api \in {"put", "ensure"} /\ c.res = "EEXIST" THEN GoNow(l, "q1")
+                       ELSE IF api \in {"put", "put_tf", "ensure"} /\ c.res = "EEXIST" THEN GoNow(l, "q1")
                        ELSE PublishFailed(l)
       [] lbl = "q1" -> IF ok THEN Go([l EXCEPT !.fd = c.ino], "q3")
                        ELSE IF WriteFallback THEN Go(l, "q2")
@@ -446,6 +467,15 @@ AfterL(p, l, lbl, c) ==
       [] lbl = "ecl3" -> IF l.wcont = "esk" THEN Go([l EXCEPT !.tfd = FALSE], "ecl4") ELSE Done([l EXCEPT !.tfd = FALSE], FALSE, "err", "")
       [] lbl = "ecl4" -> Done(l, FALSE, "err", "")
       \* application epilogue
+      [] lbl = "ms1" -> IF ok THEN Go(l, "ms2") ELSE Fail(l)
+      [] lbl = "ms2" -> Go(l, "ms3")            \* (a failed flush panics: not a result the model continues from)
+      [] lbl = "ms3" -> Go(l, "s1")
+      [] lbl = "ft1" -> IF ok THEN Go(l, "ft2") ELSE Fail(l)
+      [] lbl = "ft2" -> IF ok THEN Go(l, "ft3") ELSE Fail(l)
+      [] lbl = "ft3" -> IF ok THEN Go([l EXCEPT !.tfd = FALSE], "s1") ELSE Fail([l EXCEPT !.tfd = FALSE])
+      [] lbl = "ft4" -> IF l.tfd THEN Go(l, "ft5") ELSE Go(l, "d1t")
+      [] lbl = "ft5" -> Go([l EXCEPT !.tfd = FALSE], "d1t")
+      [] lbl = "d1t" -> Done(l, l.cont = "ok", IF l.cont = "ok" THEN "unit" ELSE "err", "")
       [] lbl = "d1" -> Go(l, "d2")
       [] lbl = "d2" -> Go(l, "d3")
       [] lbl = "d3" -> Done([l EXCEPT !.tfd = FALSE], l.cont = "ok", IF l.cont = "ok" THEN "unit" ELSE "err", "")
@@ -492,11 +522,13 @@ Begin(p) ==
            ord == IF FrontKind # "sharded" THEN <<Root, Root>> ELSE OrderByLoad(loc[p], dirs)
            base == [IdleLoc EXCEPT !.opi = loc[p].opi + 1, !.op = o, !.now = clock, !.est = loc[p].est]
            l == IF o.api \in {"get", "touch", "ensure"} THEN [base EXCEPT !.b = dirs[1], !.h1 = dirs[1], !.h2 = dirs[2], !.probe = 1]
+                ELSE IF StagedOutside(o.api) THEN [base EXCEPT !.h1 = Root, !.h2 = Root, !.b = Root, !.td = SrcDir]
                 ELSE [base EXCEPT !.h1 = ord[1], !.h2 = ord[2], !.b = ord[1], !.td = TDof(ord[1])]
        IN /\ loc' = [loc EXCEPT ![p] = l]
           /\ pc' = [pc EXCEPT ![p] = IF o.api \in {"get", "ensure"} THEN "g1" ELSE IF o.api = "touch" THEN "t1"
+                                     ELSE IF StagedOutside(o.api) THEN "a3"
                                      ELSE IF FrontKind # "sharded" THEN "a1" ELSE "s0"]
-          /\ aux' = [aux EXCEPT !.supplied = @ \cup (IF o.api \in {"set", "put", "ensure"} THEN {<<o.key, o.val>>} ELSE {})]
+          /\ aux' = [aux EXCEPT !.supplied = @ \cup (IF o.api \in {"set", "put", "set_tf", "put_tf", "ensure"} THEN {<<o.key, o.val>>} ELSE {})]
           /\ last' = [e |-> "call", p |-> p, api |-> o.api, key |-> o.key]
     /\ clock' = clock + 1
     /\ UNCHANGED <<fs, nino>>
@@ -566,7 +598,7 @@ FailSys(p) ==
     /\ Alive(p) /\ pc[p] \in SysLabels /\ aux.faults < FaultBudget
     /\ aux.faultat \in {-1, aux.nsys}
     /\ LET c0 == NextCall(p) IN
-       /\ c0.ph \in {"lib", "cb"} /\ pc[p] \notin {"ef1", "ef2"}
+       /\ c0.ph \in {"lib", "cb"} /\ pc[p] \notin {"ef1", "ef2", "ms2"}
        /\ \E er \in FaultErrnos(c0.call) :
             LET c == c0 @@ [res |-> er, inj |-> TRUE]
                 nx == After(p, c)
@@ -638,6 +670,7 @@ InvNonBlocking == \A p \in Procs : Alive(p) /\ pc[p] \notin {"idle"} =>
 StepRemoval == [][last'.e = "sys" /\ last'.call = "unlink" /\ last'.res = "ok" /\ last'.ph = "lib" =>
                     LET d == DirOf(last'.path) i == Lookup(fs, last'.path) IN
                     \/ d \in BaseDirs /\ IsKeyName(last'.path.n)
+                    \/ d = SrcDir /\ last'.path.n = loc[last'.p].tmp                  \* the value it staged itself
                     \/ IsTempDir(d) /\ (\/ last'.path.n = loc[last'.p].tmp          \* its own temporary file
                                         \/ TLt(<<fs.inos[i].mt[1] + MaxAge, 0>>, Tm(clock)))]_vars   \* or a stale one
 \* C11 at design level (sequential use of a sharded root is a special case of every interleaving with one participant)
@@ -675,8 +708,8 @@ InvNoLeak == \A p \in Procs : Alive(p) /\ pc[p] = "idle" =>
 \* a failure that the code may swallow (a re-stamp or a removal that fails "absent") does not excuse a missing effect
 InvFaultReported == Cardinality(Procs) = 1 => \A p \in Procs : pc[p] = "ret" /\ p \in DOMAIN aux.rets /\ aux.rets[p].ok =>
                         LET o == Op(p) IN
-                        /\ o.api = "set" => Abs(fs, o.key) = o.val
-                        /\ o.api \in {"put", "ensure"} => Abs(fs, o.key) # "none"
+                        /\ SetLike(o.api) => Abs(fs, o.key) = o.val
+                        /\ o.api \in {"put", "put_tf", "ensure"} => Abs(fs, o.key) # "none"
 \* errors are returned only by operations that were hit by a fault (C05 and C18 together)
 InvErrOnlyIfFaulted == aux.errs = {}
 
